@@ -49,3 +49,38 @@ def result(r):
         cls = getattr(builtins, r["exc"] or "", None)
         raise (cls if isinstance(cls, type) and issubclass(cls, Exception) else RuntimeError)(str(r["ret"]))
     return r["out"]
+
+
+def run(argv, data=b"", via="stdin", **kw):
+    """cli.run_main(argv) with the input delivered through stdin (via="stdin") or through `-i FILE` (via="file"), and
+    the output read from stdout or, when via ends with "+out", through `-o FILE` (appended to r["out"]).  With -i the
+    real stdin holds a decoy that must not be read."""
+    import cli
+    import shutil
+    import tempfile
+    d = tempfile.mkdtemp(prefix="verif_cli_")
+    try:
+        argv = list(argv)
+        stdin = data
+        if via.startswith("file"):
+            p = os.path.join(d, "in.dat")
+            with open(p, "wb") as f:
+                f.write(data)
+            argv += ["-i", p]
+            stdin = b"this is stdin and must not be read"
+        op = None
+        if via.endswith("+out"):
+            op = os.path.join(d, "out.dat")
+            argv += ["-o", op]
+        r = cli.run_main(argv, stdin=stdin, **kw)
+        if op is not None:
+            import gc
+            gc.collect()
+            try:
+                with open(op, "rb") as f:
+                    r["out"] = bytes(r["out"]) + f.read()
+            except OSError:
+                pass
+        return r
+    finally:
+        shutil.rmtree(d, ignore_errors=True)
